@@ -5,6 +5,7 @@ import vlib
 META = {
     "property_id": "C17",
     "level": "proof",
+    "coq_targets": ["SetCodecJudge.vo"],
     "technique": "Coq theorem: for every element type, source set, target set and map iteration order, decode(encode(s)) into t has exactly the members of t and s, given a listing codec that round-trips (section hypothesis = library behaviour); in-kernel correspondence on real encoding/json and yaml.v3 round trips",
     "design_ref": "DESIGN.md §4 C17",
     "level_text": "Proof (partial on the library side): SetCodecProofs.v, built on the C07 lemmas, shows for every element type with decidable equality, every well-formed source and target set (nil, empty, pre-filled) and every order in which the runtime may list the map, that the model of Marshal*/Unmarshal* lists each member exactly once (nil slice exactly for the empty set), that decoding succeeds and yields exactly the union, and never removes a member of the target - under the hypothesis that the library's element codec round-trips a listing. That hypothesis is library behaviour no Gallina model can carry; it is validated per case: the real json/yaml encoders and decoders are run on sets of string (empty, unicode, YAML-significant), int, float, bool and struct elements, standalone and as struct fields, and every observation is judged inside Coq against the spec and the model.",
